@@ -2,6 +2,7 @@ import Sourcer.Properties
 import Tie.Flags
 import Tie.Excerpt
 import Tie.MetaTable
+import Tie.Binders
 /-
   Axiom audit: `#print axioms` for every property theorem and every tie obligation.
   The check parses this output; anything outside {propext, Classical.choice, Quot.sound} fails.
@@ -24,6 +25,8 @@ import Tie.MetaTable
 #print axioms Sourcer.C04_no_other_skip_point
 #print axioms Sourcer.C04_literal_then_skip
 #print axioms Sourcer.C04_skip_maximal
+#print axioms Sourcer.C04_lengthening
+#print axioms Sourcer.C04_reindexing
 #print axioms Sourcer.C07_memo_transparent
 #print axioms Sourcer.C07_started_only_on_miss
 #print axioms Sourcer.C07_hit_returns_stored
@@ -91,3 +94,4 @@ import Tie.MetaTable
 #print axioms Tie.linecol_spec -- module Tie.Excerpt
 #print axioms Tie.excerpt_spec -- module Tie.Excerpt
 #print axioms Tie.metaTable_grouping -- module Tie.MetaTable
+#print axioms Tie.binders_agree -- module Tie.Binders
